@@ -22,6 +22,8 @@ for prop in args:
         cmd = [os.path.join(root, 'tools', 'mut.sh'), f"{prop}-{m['name']}"]
         if 'patch' in m:
             cmd += [os.path.join(root, m['patch'])]
+        elif 'old' in m:
+            cmd += ['--repl', m['file'], m['old'], m['new']]
         else:
             cmd += ['--sed', m['file'], m['sed']]
         cmd += ['--', m.get('check', prop), '--tier', 'quick']
